@@ -139,7 +139,7 @@ func (aux *Aux) LoadForm() slip.Object {
 		method := aux.methods[k]
 		sll := make(slip.List, len(method.Doc.Args))
 		for i, da := range method.Doc.Args {
-			if i < aux.reqCnt {
+			if i < aux.reqCnt && 0 < len(da.Type) {
 				sll[i] = slip.List{slip.Symbol(da.Name), slip.Symbol(da.Type)}
 			} else {
 				if (0 < len(da.Name) && da.Name[0] == '&') || da.Default == nil {
